@@ -144,6 +144,7 @@ func init() {
 		}
 		runGossip(run, "C11", jobs)
 		c11DetectorLoop(run)
+		schedPass(run)
 		return run.Finish()
 	})
 	register("C04", func(args []string) int {
